@@ -517,14 +517,18 @@ func (w *world) checkBroadcast(purged []int, newBroadcasts int64, how string) *v
 // afterWhat names the behaviour of the active peers that come earlier in the
 // broadcast order (root-cause hint: abort after a failing peer).
 func (w *world) afterWhat(i int) string {
+	hint := ""
 	for j := 0; j < i; j++ {
 		if w.states[j] == "active" {
-			if b := w.stubs[j].behave.Load().(string); b != "ok" {
-				return " after an earlier peer answered " + b
+			switch w.stubs[j].behave.Load().(string) {
+			case "err500":
+				return " after an earlier peer answered err500"
+			case "delay":
+				hint = " after an earlier peer answered slowly"
 			}
 		}
 	}
-	return ""
+	return hint
 }
 
 func (w *world) describePeers() string {
